@@ -84,6 +84,10 @@ func runC10(l *core.Ledger) {
 	l.Rule("C10-N7", "the stream is marked broken only while it is the current one and only on transport errors (C09-W8, C09-W6 re-run): a flag set after the other goroutine restored the stream makes the sender replace a healthy stream - the reader stays parked on the replaced one and the node's replies are never read, and the server's connect callback runs for streams nobody reads")
 	l.With(map[string]string{"C09-W6": "C10-N7", "C09-W8": "C10-N7"}, func() { c09W6(l, r) })
 	l.Rule("C10-N9", "the reader fails the calls of the stream that failed, not the calls already written to a stream re-created meanwhile: the fail-all routine is told (or finds out) which stream a pending request was written to")
+	l.Rule("C10-N12", "a stream that has been re-created is ended only by its own failure, by its replacement or by a write in progress (C09-W9 re-run): a timer or callback left over from a failed attempt that cancels 'the current stream' ends the healthy stream of the restarted node, and the call whose request the server has handled gets 'stream is down'")
+	l.With(map[string]string{"C09-W9": "C10-N12"}, func() { c09W9(l, r) })
+	l.Rule("C10-N13", "the reader's waits between two attempts can be ended by the wake-up signal and by Close (C12-X2 re-run: every blocking operation of the per-node goroutines is a select that watches the node context): a bare receive from a timer channel that has already fired parks the only reader for ever, and the replies of the restarted node are never read")
+	l.With(map[string]string{"C12-X2": "C10-N13"}, func() { c12X2(l, r) })
 	c10N8(l, r)
 	c10N11(l, r)
 	c10N10(l, r)
